@@ -635,6 +635,24 @@ def gen_tcp_script(rng, flavour):
         steps.append({"ctl": [], "hosts": {str(b): [["tcp_drop_readers", a]]}})
         for _ in range(rng.randrange(2, 6)):
             steps.append({"ctl": [], "hosts": {str(a): [["tcp_write", c2, ids.next()] for c2, ab in conns.items() if ab == (a, b)]}})
+    if flavour == "hold" and conns and rng.random() < 0.5:
+        # the accepting side has dropped its end; under a hold one parked segment is delivered by hand, the
+        # destination refuses it and answers RST - a message sent while the link is held: it must stay parked,
+        # the writer's further writes must keep being accepted until the release
+        c = rng.choice(sorted(x for x in conns if x not in closed) or sorted(conns))
+        a, b = conns[c]
+        steps.append({"ctl": [["release", {"h": a}, {"h": b}]], "hosts": {}})
+        for _ in range((cfg["max_ms"] * 1000) // cfg["tick_us"] + 3):
+            steps.append({"ctl": [], "hosts": {}})
+        steps.append({"ctl": [], "hosts": {str(b): [["tcp_drop_readers", a]]}})
+        for _ in range((cfg["max_ms"] * 1000) // cfg["tick_us"] + 3):
+            steps.append({"ctl": [], "hosts": {}})
+        steps.append({"ctl": [["hold", rand_sel(rng, a), rand_sel(rng, b)]], "hosts": {}})
+        mine = [c2 for c2, ab in conns.items() if ab == (a, b) and c2 not in closed]
+        steps.append({"ctl": [], "hosts": {str(a): [["tcp_write", c2, ids.next()] for c2 in mine]}})
+        steps.append({"ctl": [["deliver_all", a, b]], "hosts": {}})
+        for _ in range(rng.randrange(3, 7)):
+            steps.append({"ctl": [], "hosts": {str(a): [["tcp_write", c2, ids.next()] for c2 in mine]}})
     if flavour == "hold":
         # close what is still open while (possibly) held, then release everything
         hosts = {}
@@ -668,6 +686,8 @@ def tcp_oracle(case, obs, flavour):
     explicit, held = {}, {}
     forbidden, parked = {}, {}
     silent = {}
+    gone = set()
+    why = {}
     for ev in tl:
         if ev[0] == "call":
             _, name, a, b, t = ev
@@ -685,18 +705,30 @@ def tcp_oracle(case, obs, flavour):
                 if name == "release":
                     for i in [i for i, p in parked.items() if p == (min(a, b), max(a, b))]:
                         del parked[i]
+                for (w, r) in gone:
+                    if {w, r} == {a, b}:
+                        if name == "hold":
+                            # whatever the reader's host sends from now on (RST answers to segments delivered
+                            # by hand) is a message sent while the link is held: it stays parked
+                            silent[(w, r)] = t // (case["cfg"]["tick_us"] * 1000)
+                            why[(w, r)] = "the link was held"
+                        else:
+                            silent.pop((w, r), None)
         elif ev[0] == "tcp_drop":
             _, h, peer, _x, step = ev
+            gone.add((peer, h))
             if explicit.get((h, peer)):
                 silent[(peer, h)] = step      # (writer, reader): the reader went away unseen
+                why[(peer, h)] = "h%d->h%d was explicitly partitioned" % (h, peer)
         elif ev[0] == "tcp_write":
             _, h, cid, i, step = ev
             if cid in conns and conns[cid] in silent and i in wres and wres[i][0] == "write_err" and (
                     "BrokenPipe" in wres[i][1] or "ConnectionReset" in wres[i][1]):
                 a, b = conns[cid]
-                out.append(("TCP write %d on connection %d (h%d->h%d) at step %d failed with %s: h%d dropped its end at step %d "
-                            "while h%d->h%d was explicitly partitioned, so nothing it sends (FIN, RST) may reach h%d" % (
-                                i, cid, a, b, step, wres[i][1].split(":")[1], b, silent[conns[cid]], b, a, a), None))
+                out.append(("TCP write %d on connection %d (h%d->h%d) at step %d failed with %s: h%d had dropped its end and since "
+                            "step %d %s, so nothing h%d sends (FIN, RST) may reach h%d" % (
+                                i, cid, a, b, step, wres[i][1].split(":")[1], b, silent[conns[cid]],
+                                why.get(conns[cid], "the direction back was cut"), b, a), None))
             if i in wrote and cid in conns:
                 a, b = conns[cid]
                 if explicit.get((a, b)):
@@ -727,9 +759,13 @@ def tcp_oracle(case, obs, flavour):
             out.append(("TCP frame %d read %d times" % (i, got[i]), None))
     if flavour == "hold":
         for i, (cid, st) in wrote.items():
+            if cid in conns and conns[cid] in gone:
+                continue        # the reader dropped its end: nobody reads these frames
             if got.get(i, 0) != 1:
                 out.append(("TCP frame %d accepted by the writer at step %d was read %d times after release and drain" % (i, st, got.get(i, 0)), None))
         for cid in closed_conns:
+            if cid in conns and conns[cid] in gone:
+                continue
             if cid in conns and cid in ports:
                 a, b = conns[cid]
                 e = eofs.get((a, b, ports[cid]))
